@@ -147,39 +147,13 @@ def walker_name(builder):
 # --------------------------------------------------------------------------
 # cold restart: "process restarted, only the code survives"
 
-def _closure_cache(fn):
-    """The moduleCache dict closed over by a moduleFactoryFactory product."""
-    for cell in (fn.__closure__ or ()):
-        try:
-            v = cell.cell_contents
-        except ValueError:
-            continue
-        if isinstance(v, dict):
-            return v
-    return None
-
-
 def cold_restart():
-    import re
-    re.purge()
-    _inputstream.charsUntilRegEx.clear()
-    treebuilders.treeBuilderCache.clear()
-    treewalkers.treeWalkerCache.clear()
-    from html5lib.treebuilders import etree as tb_etree, dom as tb_dom
-    from html5lib.treewalkers import etree as tw_etree
-    for fn in (tb_etree.getETreeModule, tb_dom.getDomModule, tw_etree.getETreeModule):
-        d = _closure_cache(fn)
-        if d is not None:
-            d.clear()
-    try:
-        from html5lib._trie import py as trie_py
-        from html5lib import _tokenizer as tk
-        t = tk.entitiesTrie
-        if hasattr(t, "_cachestr"):
-            t._cachestr = ""
-            t._cachepoints = (0, len(t._keys))
-    except Exception:
-        pass
+    """Every process-wide container the library owns goes back to its
+    import-time contents (sim/coldstate.py) - the in-process analogue of
+    "process restarted, only the code survives".  Derived from the modules, not
+    from a list of known caches, so caches added by a change are reset too."""
+    from . import coldstate
+    coldstate.restore()
 
 
 # --------------------------------------------------------------------------
@@ -538,6 +512,39 @@ def _add_fault(rng, cfg, op):
     return None
 
 
+ALIAS_LABELS = ["koi8-r", "shift_jis", "iso-8859-2", "utf-8", "windows-1251", "euc-kr", "big5", "macintosh"]
+ALIAS_BODY = {"koi8-r": b"\xc1\xc2\xd7", "shift_jis": b"\x82\xa0", "iso-8859-2": b"\xb1\xe6", "utf-8": b"\xc3\xa9", "windows-1251": b"\xe6\xe8",
+              "euc-kr": b"\xb0\xa1", "big5": b"\xa7A", "macintosh": b"\x8e\x9f"}
+
+
+def _alias_variants(label, for_arg):
+    out = [label + "\x0b", label + "\x1c", label + "\x1f", "\x0b" + label, label.upper(), " " + label + " ", label.capitalize(),
+           label + "\x0c", label.replace("-", "_") if "-" in label else label + "x"]
+    if for_arg:
+        out += [label + "\xa0", label + "\u2003", label.replace("k", "\u212a") if "k" in label else label + "\x85",
+                label.replace("s", "\u017f") if "s" in label else label + "\u200b"]
+    return out
+
+
+def gen_alias_pair(rng, n_parsers):
+    """Two parses whose encoding labels differ only by something a cache key
+    might fold away (case, padding, look-alike characters): first the clean
+    label, then the variant."""
+    label = rng.choice(ALIAS_LABELS)
+    body = b"<p>" + ALIAS_BODY[label] + b" x"
+    via_arg = rng.random() < 0.4
+    variant = rng.choice(_alias_variants(label, via_arg))
+    ops = []
+    for lab in (label, variant):
+        if via_arg:
+            name = rng.choice(["likely_encoding", "default_encoding", "same_origin_parent_encoding", "transport_encoding"])
+            ops.append({"op": "parse_bytes", "obj": rng.randrange(n_parsers), "hex": body.hex(), "args": {name: lab}})
+        else:
+            doc = b'<meta charset="' + lab.encode("ascii") + b'">' + body
+            ops.append({"op": "parse_bytes", "obj": rng.randrange(n_parsers), "hex": doc.hex(), "args": {}})
+    return ops
+
+
 def gen_history(rng, stream):
     faulty = stream == "M2"
     n_parsers = rng.randint(1, 3)
@@ -580,7 +587,13 @@ def gen_history(rng, stream):
             _add_fault(rng, cfg, op)
         ops.append(op)
         pending_observer = oi if role == "setter" and rng.random() < 0.8 else None
-    return {"prop": PROP, "stream": stream, "objs": objs, "ops": ops}
+    case = {"prop": PROP, "stream": stream, "objs": objs, "ops": ops}
+    if rng.random() < 0.12:
+        pos = rng.randint(0, len(ops))
+        pair = gen_alias_pair(rng, n_parsers)
+        case["ops"] = ops[:pos] + pair[:1] + ops[pos:pos + rng.randint(0, 2)] + pair[1:] + ops[pos:][2:]
+        case["pristine"] = True       # always compared with the pristine interpreter
+    return case
 
 
 def gen_abort_sweep(rng):
@@ -681,7 +694,7 @@ def execute(case):
     # pristine-interpreter reference: all ops of every 8th history (decided by
     # the case itself, not by a PRNG), every op that follows a cold restart,
     # and every op whose same-process comparison is about to be reported
-    pristine_all = env.digest64(json.dumps(case, sort_keys=True)) % 8 == 0
+    pristine_all = bool(case.get("pristine")) or env.digest64(json.dumps(case, sort_keys=True)) % 8 == 0
     after_cold = False
     uses = [0] * len(objs)
     last_sig = [None] * len(objs)
